@@ -190,7 +190,8 @@ def item_call(lib, ex, base, name, args, kw, st, node):
         s.heap_set(base, "timestamp_node_exit", V.ite(V.eq(how, VStr("exit")), Num(s.now), s.heap_get(base, "timestamp_node_exit")))
         return [(NONE, s)]
     if name == "add_item":
-        s.ghost.setdefault("packed", []).append((args[0].t, base.t, node.lineno))
+        x = args[0].val if isinstance(args[0], VOpt) else args[0]
+        s.ghost.setdefault("packed", []).append((x.t, base.t, node.lineno))
         return [(NONE, s)]
     raise Unsupported("item.%s() (line %d)" % (name, node.lineno))
 
@@ -236,6 +237,12 @@ def obj_attr(lib, ex, base, attr, st, lineno):
         return [(VObj(sel(st, "resourcename", base.t), "store"), st)]
     if base.kind == "item" and attr == "id":
         return [(VOpaque("item-id"), st)]
+    if base.kind == "item" and attr == "items" and "__pallet_items" in st.f:
+        pp = getattr(ex.ctx.con, "pallet_param", None)
+        if pp and pp in ex.ctx.args:
+            ex.ctx.oblige("pallet-content-read-from-the-pallet-being-unpacked@L%d" % lineno, st,
+                          [base.t == ex.ctx.args[pp].t], "call-pre", lineno, ("C16",))
+        return [(FieldRef("__pallet_items"), st)]
     return [(st.heap_get(base, attr), st)]
 
 
@@ -380,6 +387,10 @@ class Yields:
         hook = getattr(self.con, "at_yield", None)
         if hook:
             hook(ex, ordinal, ynode, value, st)
+        if isinstance(value, VOpaque) and value.tag == "any_of":
+            # an any_of condition that has already been processed: the generator continues at once (K-event:
+            # yielding a processed event does not give control back to the kernel)
+            return [(NONE, st)]
         s = st.fork()
         tag = "y%d_%s" % (ordinal, _n())
         waited = None
@@ -430,8 +441,9 @@ class Yields:
         elif isinstance(value, VAnyOf):
             mem = value.members
             if isinstance(mem, SList):
-                s.assume(Exists(1, lambda i: z3.And(0 <= i, i < mem.len, z3.Select(newtr, mem.at(i).t)), [mem.len], "any_of"))
-                ctx.oblige("yield%d.any_of-has-members@L%d" % (ordinal, lineno), st, [mem.len >= 1], "yield", lineno, ("C20",))
+                # K-any_of: fires as soon as a member is triggered; at once for an empty list
+                wit = logic.fresh_idx("anyof")
+                s.assume(z3.Implies(mem.len >= 1, z3.And(0 <= wit, wit < mem.len, z3.Select(newtr, mem.at(wit).t))))
             else:
                 ts = [m for m in mem if isinstance(m, VObj)]
                 s.assume(z3.Or(*[z3.Select(newtr, m.t) for m in ts]))
@@ -511,10 +523,11 @@ def put_count(st, item):
 
 
 def install(lib):
-    from contracts import nodes_sink, nodes_machine, nodes_source
+    from contracts import nodes_sink, nodes_machine, nodes_source, nodes_split_comb
     nodes_sink.install(lib)
     nodes_source.install(lib)
     nodes_machine.install(lib)
+    nodes_split_comb.install(lib)
 
 
 def chi(lib, cls, name, old, args):
